@@ -41,4 +41,16 @@ Equivalent(w1, w2) == \A v \in Vals : (Ev(w1, v) = 1) = (Ev(w2, v) = 1)      \* 
 
 \* spec-level sanity: pushing an allowed atom and consuming model arguments is sound for a filter
 PushSound(w) == \A i \in AllowedPush(w) : \A v \in Vals : Ev(w, v) = 1 => v[i] = 1
+
+----------------------------------------------------------------------------
+(* ON clauses.  In  t JOIN u ON <on> JOIN model  the condition <on> is a tree over the join equality (atom 0) and       *)
+(* comparisons of u's columns with constants (atoms 6 = "u.c = 1", 7 = "u.c > 2").  A comparison may be pushed into u's *)
+(* fetch only if it is a top-level conjunct of the ON clause of an INNER or LEFT join (u is then the side whose         *)
+(* unmatched rows are not kept); under NOT / OR, or in a RIGHT / FULL join, nothing of the ON clause may restrict the   *)
+(* fetch.  The semi-join restriction `col IN (values of the other table)` is allowed under the same condition, and only *)
+(* when the equality is a top-level conjunct.                                                                          *)
+OnAtomIds == {6, 7}
+PushKinds == {"inner", "left"}
+AllowedPushOn(on, kind) == IF kind \in PushKinds THEN {i \in AtomIds(TopConj(on)) : i \in OnAtomIds} ELSE {}
+SemiJoinAllowed(on, kind) == kind \in PushKinds /\ 0 \in AtomIds(TopConj(on))
 =============================================================================
